@@ -50,6 +50,7 @@ ProcA == /\ pendA # <<>> /\ pendA' = Tail(pendA)
 LogB == /\ \/ Ev("b_ctl") /\ BCtl([t |-> T.t, s |-> T.s, v |-> T.v])
            \* (the PING is sent once the sender's close has been seen by the relay: the harness waits)
            \/ Ev("b_ping_sent") /\ pendA = <<>> /\ BSendPing
+           \/ Ev("b_rst_sent") /\ BSendRst(T.s)
         /\ UNCHANGED <<pendA, seenCred, seenCredC>>
 \* --- logged: B receives a frame: it must be the head of the ordered output channel
 LogRecv == /\ Ev("b_recv") /\ out # <<>>
